@@ -1,5 +1,6 @@
 import FM.Base.Codec
 import FM.Model.Wrap
+import FM.Model.Sentence
 /-
   One operation per input line, one canonical answer per output line.
 -/
@@ -30,6 +31,17 @@ def step (line : String) : String :=
       | _, _, _, _, _, _ => bad
   | ["denorm", t] => match decStr t with | some x => encStr (denormalizeAdjacentTags x) | none => bad
   | ["norm", t] => match decStr t with | some x => encStr (normalizeAdjacentTags x) | none => bad
+  | ["sentWrap", w, i0, s0, ml, md, ws, fl] =>
+      match decNat w, decStr i0, decStr s0, decNat ml, decBool md, decList ws with
+      | some w, some i0, some s0, some ml, some md, some ws =>
+          let flags := fl.toList.map (· == '1')
+          if flags.length != ws.length then bad
+          else encStr (sentWrapStr w i0 s0 ml md (ws.zip flags))
+      | _, _, _, _, _, _ => bad
+  | ["sentNoWrap", i0, t] =>
+      match decStr i0, decStr t with
+      | some i0, some t => encStr (sentNoWrap i0 t)
+      | _, _ => bad
   | _ => bad
 
 partial def loop (hin hout : IO.FS.Stream) : IO Unit := do
